@@ -34,6 +34,15 @@ def passed_count(out):
     return sum(int(m) for m in re.findall(r"test result: ok\. (\d+) passed", out)), len(re.findall(r"test result: FAILED", out))
 
 
+# demos may need extra cargo features (recorded by the agent in meta.json, e.g. parking_lot)
+try:
+    _am = json.loads((src / "meta.json").read_text())
+    _need = str(_am.get("features_needed_for_demo", ""))
+    for extra in ["parking_lot"]:
+        if extra in _need and extra not in FEATS.split(","):
+            FEATS += "," + extra
+except Exception:
+    pass
 res = {}
 sh("git checkout -- . && rm -rf tests/verif_demo.rs")
 (wt / "tests").mkdir(exist_ok=True)
